@@ -82,6 +82,9 @@ func sexprS(pc *decoder.PathContext, e hclsyntax.Expression) S {
 				steps = append(steps, T("attr", rangeS(ts.SrcRange)))
 			case hcl.TraverseIndex:
 				switch {
+				case !ts.Key.IsKnown():
+					// nothing between the brackets: the parser's placeholder key
+					steps = append(steps, T("idxu", rangeS(ts.SrcRange)))
 				case ts.Key.Type() == cty.String:
 					steps = append(steps, T("idxs", rangeS(ts.SrcRange)))
 				case ts.Key.Type() == cty.Number:
